@@ -316,6 +316,8 @@ def stepM (id : String) (inp obs : List String) : String :=
 structure HOp where
   op : Headers.Op
   keys : List Bytes
+  /-- cookie round trip: (cookie line emitted, value set); the last observed "key" is the read-back -/
+  rt : Option (Bool × Bytes) := none
 
 def pHOp : P HOp := do
   let name ← tok
@@ -335,10 +337,13 @@ def pHOp : P HOp := do
     | "Download" => pure (Headers.Op.download (a 0) (if args.length > 1 then some (a 1) else none))
     | "NotAllowed" => pure (Headers.Op.notAllowed args)
     | "SetCookie" => pure (Headers.Op.setCookie (ship.getD 0 []))
+    | "CookieRT" => pure (Headers.Op.setCookie (ship.getD 0 []))
     | "Data" => pure (Headers.Op.data (a 0))
     | "Reader" => pure (Headers.Op.reader (a 0) (keys.getD 1 []) (a 2))
     | _ => failure
-  pure { op := op, keys := keys }
+  if name == "CookieRT" then
+    pure { op := op, keys := keys.take 1, rt := some (!(ship.getD 0 []).isEmpty, a 1) }
+  else pure { op := op, keys := keys }
 
 def pHObs : P (Option (List (List Bytes))) := do
   let k ← tok
@@ -349,7 +354,11 @@ def runH : Headers.HMap → List HOp → List (List (List Bytes))
   | _, [] => []
   | m, o :: os =>
     let m' := Headers.apply m o.op
-    (o.keys.map (Headers.hvals m')) :: runH m' os
+    -- the model of SetCookie ; GetCookie on the next request: the value as set, when the cookie was emitted
+    let rb := match o.rt with
+      | some (emitted, v) => [if emitted then [v] else []]
+      | none => []
+    (o.keys.map (Headers.hvals m') ++ rb) :: runH m' os
 
 def encVals (vss : List (List Bytes)) : String :=
   " ".intercalate ("V" :: toString vss.length :: vss.map (fun vs => " ".intercalate (toString vs.length :: vs.map encStr)))
@@ -359,8 +368,14 @@ def stepH (id : String) (inp obs : List String) : String :=
   | some ops, some os =>
     let m := runH [] ops
     let mi := os.length == m.length && (os.zip m).all (fun p => p.1 == some p.2)
-    let s := os.length == ops.length && os.all (fun o => match o with
-      | some vss => vss.all (fun vs => vs.all RenderSpec.noCRLF)
+    let s := os.length == ops.length && (os.zip ops).all (fun p => match p.1 with
+      | some vss =>
+        (match p.2.rt with
+         | some (emitted, v) =>
+           -- header values clean; the read-back (last entry) is judged by the round-trip clause, not by noCRLF
+           (vss.dropLast).all (fun vs => vs.all RenderSpec.noCRLF) &&
+           RenderSpec.cookieRoundTripOK emitted v (vss.getLastD [])
+         | none => vss.all (fun vs => vs.all RenderSpec.noCRLF))
       | none => false)
     verdict id mi s "-" (" ".intercalate (toString m.length :: m.map encVals))
   | _, _ => s!"{id} bad-case"
